@@ -203,3 +203,51 @@ func harnessC15EmbeddedNamed() {
 	evNamedName = c15Name()
 	c15Check(evEmb{evNamed: evNamed{N: vInt(-3, 3)}, X: 1}, 1)
 }
+
+// Two distinct Go types that print alike: both are declared as "Created" inside a function, so reflect renders
+// both as "eventbus.Created"; one carries an explicit event type name through an embedded TypeNamer, the other
+// is named by its Go type. Whatever was resolved first must not leak into the other.
+type c15TagBilling struct{}
+
+func (c15TagBilling) EventTypeName() string { return "billing.created.v1" }
+
+func c15LocalNamed(n int) {
+	type Created struct {
+		c15TagBilling
+		N int `json:"n"`
+	}
+	vAssert(EventType(Created{}) == "billing.created.v1", "stored-type-is-EventType")
+	c15Check(Created{N: n}, n)
+}
+
+func c15LocalPlain(n int) {
+	type Created struct {
+		N int `json:"n"`
+	}
+	vAssert(EventType(Created{}) == "eventbus.Created", "stored-type-is-EventType")
+	c15Check(Created{N: n}, n)
+}
+
+func c15LocalPlainPtr(n int) {
+	type Created struct {
+		N int `json:"n"`
+	}
+	c15Check(&Created{N: n}, n)
+}
+
+//verif:entry property=C15 tier=both bounds="distinct Go types that reflect prints alike (function-local types of one name): one with an embedded TypeNamer, one plain, one published by pointer - used one after the other in either order in one process; each is persisted, replayed and upcast under its own EventType name" cover="checked"
+func harnessC15SameNameDistinctTypes() {
+	n := vInt(0, 100)
+	switch vPick(3) {
+	case 0:
+		c15LocalNamed(n)
+		c15LocalPlain(n)
+	case 1:
+		c15LocalPlain(n)
+		c15LocalNamed(n)
+	case 2:
+		c15LocalPlainPtr(n)
+		c15LocalNamed(n)
+		c15LocalPlain(n)
+	}
+}
